@@ -13,7 +13,8 @@ from .spec import MAX_BYTES
 class Trip:
     def __init__(self, F, B, parse_def):
         self.F, self.B = F, B
-        self.S = Summary(F, B)
+        # an FCI writer is handed the rest of the packet buffer (at least its announced size), a packet writer exactly its size
+        self.S = Summary(F, B, exact=(B.kind != "fci"))
         self.I = self.S.I
         self.parse_def = parse_def
         self.cases = []       # (write case, write state, [(state, parser outcome value)])
